@@ -87,6 +87,12 @@ func (m *authenticatedMap[IdentifierType, K, V]) Set(key K, value V) error {
 		return ierrors.Wrap(err, "failed to serialize value")
 	}
 
+	// The tree reports an absent key as a nil value, so a stored value must never be nil:
+	// an empty encoding is stored as an empty, non-nil slice (both hash to the same leaf).
+	if valueBytes == nil {
+		valueBytes = []byte{}
+	}
+
 	keyBytes, err := m.keyToBytes(key)
 	if err != nil {
 		return ierrors.Wrap(err, "failed to serialize key")
